@@ -3266,15 +3266,16 @@ class UTPM(Ring, RawAlgorithmsMixIn):
         """UTPM equivalent to numpy.fft.fft(a, n=None, axis=-1)"""
         D,P = a.data.shape[:2]
 
+        # the transform acts along one axis of every coefficient; n may truncate or zero-pad it
+        ax = axis if axis < 0 else axis + 2
+        res = numpy.fft.fft(a.data, n=n, axis=ax)
+
         if out is None:
-            r = cls(numpy.zeros(a.data.shape, dtype=complex))
+            r = cls(res)
 
         else:
             r, = out
-
-        for d in range(D):
-            for p in range(P):
-                r.data[d,p, ...] = numpy.fft.fft(a.data[d,p], n=n, axis=axis)
+            r.data[...] = res
 
         return r
 
@@ -3292,7 +3293,13 @@ class UTPM(Ring, RawAlgorithmsMixIn):
             for p in range(P):
 
                 # abar.data[d,p, ...] += numpy.fft.fft(bbar.data[d,p], n=n, axis=axis)
-                numpy.add(abar.data[d,p, ...], numpy.fft.fft(bbar.data[d,p], n=n, axis=axis), out=abar.data[d,p, ...], casting="unsafe")
+                # bbar has length n along axis; the adjoint of truncation / zero-padding pads / truncates back
+                tmp = numpy.fft.fft(bbar.data[d,p], axis=axis)
+                L = min(tmp.shape[axis], abar.data[d,p].shape[axis])
+                sl = [slice(None)]*tmp.ndim
+                sl[axis] = slice(0,L)
+                sl = tuple(sl)
+                numpy.add(abar.data[d,p][sl], tmp[sl], out=abar.data[d,p][sl], casting="unsafe")
 
         return abar
 
@@ -3301,15 +3308,16 @@ class UTPM(Ring, RawAlgorithmsMixIn):
         """UTPM equivalent to numpy.fft.ifft(a, n=None, axis=-1)"""
         D,P = a.data.shape[:2]
 
+        # the transform acts along one axis of every coefficient; n may truncate or zero-pad it
+        ax = axis if axis < 0 else axis + 2
+        res = numpy.fft.ifft(a.data, n=n, axis=ax)
+
         if out is None:
-            r = cls(numpy.zeros(a.data.shape, dtype=complex))
+            r = cls(res)
 
         else:
             r, = out
-
-        for d in range(D):
-            for p in range(P):
-                r.data[d,p, ...] = numpy.fft.ifft(a.data[d,p], n=n, axis=axis)
+            r.data[...] = res
 
         return r
 
@@ -3325,7 +3333,13 @@ class UTPM(Ring, RawAlgorithmsMixIn):
 
         for d in range(D):
             for p in range(P):
-                abar.data[d,p, ...] += numpy.fft.ifft(bbar.data[d,p], n=n, axis=axis)
+                # ifft with length n is (1/n) * conj(F_n) applied to the truncated / zero-padded argument
+                tmp = numpy.fft.ifft(bbar.data[d,p], axis=axis)
+                L = min(tmp.shape[axis], abar.data[d,p].shape[axis])
+                sl = [slice(None)]*tmp.ndim
+                sl[axis] = slice(0,L)
+                sl = tuple(sl)
+                abar.data[d,p][sl] += tmp[sl]
 
         return abar
 
